@@ -50,9 +50,15 @@ def run_scenario(case):
             if ok:
                 proto.data_received(b'{"bad json\n')
 
+        times = {}
+
         async def sender(w, size):
+            times[w] = [loop.time(), None]
             try:
-                await s._send_message(b'%d:' % w + b'x' * size)
+                try:
+                    await s._send_message(b'%d:' % w + b'x' * size)
+                finally:
+                    times[w][1] = loop.time()
                 outcome[w] = 'done'
             except curio.TaskTimeout:
                 outcome[w] = 'timeout'
@@ -112,7 +118,7 @@ def run_scenario(case):
                 outcome[99] = 'timeout'         # the reading loop's own send ran into max_send_delay
             return {'garbled': garbled, 'wire': wire, 'blind': blind, 'timeouts': sorted((w for w, o in outcome.items() if o == 'timeout'),
                                                                     key=lambda w: w),
-                    'bad': bad, 'hung_after_lost': hung,
+                    'bad': bad, 'hung_after_lost': hung, 'times': {str(k): v for k, v in times.items()}, 'max_send_delay': s.max_send_delay,
                     'reading': ft.reading, 'outcome': {str(k): v for k, v in outcome.items()},
                     'fragments': fragments[:10],
                     'aborted': any(x[0] == 'abort' for x in ft.log), 'pending': sum(1 for t in tasks if not t.done()),
@@ -149,6 +155,12 @@ class C15(Prop):
                 {'transport': 'rs', 'hwm': 5, 'events': [['sendbad', 1, 10], ['send', 2, 3], ['lost'], ['tick']]},
                 {'transport': 'us', 'hwm': 5, 'events': [['sendbad', 1, 10], ['send', 2, 3], ['lost'], ['tick']]},
                 {'transport': 'rs', 'kind': 'client', 'hwm': 5, 'events': [['sendbad', 1, 10], ['drain'], ['tick'], ['send', 2, 3], ['tick'], ['drain'], ['tick']]},
+                # room is reported at intervals shorter than max_send_delay, the writer in front refills the buffer each time:
+                # the writers behind it are still bound by max_send_delay from the moment THEY started
+                {'transport': 'rs', 'hwm': 5, 'events': [['send', 1, 10], ['send', 2, 10], ['send', 3, 10], ['advance', 14], ['drain'], ['tick'],
+                                                        ['advance', 14], ['tick'], ['advance', 14], ['tick']]},
+                {'transport': 'us', 'hwm': 5, 'events': [['send', 1, 10], ['send', 2, 10], ['send', 3, 10], ['send', 4, 10], ['advance', 7], ['drain'], ['tick'],
+                                                        ['advance', 7], ['drain'], ['tick'], ['advance', 7], ['tick'], ['advance', 28], ['tick']]},
                 {'transport': 'us', 'hwm': 200, 'events': [['bad'], ['send', 1, 300], ['send', 2, 3], ['advance', 21], ['tick']]},
                 {'transport': 'rs', 'hwm': 5, 'events': [['sendbad', 1, 10], ['send', 2, 3], ['advance', 21], ['tick']]}]
 
@@ -231,6 +243,15 @@ class C15(Prop):
                 return 'a sender got an unexpected exception ' + o
         if obs['timeouts'] and not obs['aborted']:
             return 'a send blocked for max_send_delay did not abort the connection'
+        for w, (t0, t1) in obs['times'].items():
+            if t1 is None:
+                continue
+            if obs['outcome'].get(w) == 'timeout' and abs((t1 - t0) - obs['max_send_delay']) > 1e-6:
+                return (f'a sender gave up with TaskTimeout {t1 - t0:.3f} s after it started sending; a message that cannot be written '
+                        f"within max_send_delay = {obs['max_send_delay']} s aborts the connection at that point")
+            if t1 - t0 > obs['max_send_delay'] + 1e-6:
+                return (f'a sender was blocked for {t1 - t0:.3f} s, longer than max_send_delay = {obs["max_send_delay"]} s, '
+                        'before the connection was aborted')
         lost = any(e[0] == 'lost' for e in case['events']) or obs['aborted']
         sent = [e[1] for e in case['events'] if e[0] == 'send']
         if not lost:
